@@ -5,3 +5,8 @@
 pub broadcast proof fn axiom_str_ext(a: &str, b: &str)
     ensures (#[trigger] a@ == #[trigger] b@) ==> a == b
 {}
+// String extensionality: a String is determined by its character sequence. Trusted.
+#[verifier::external_body]
+pub broadcast proof fn axiom_string_ext(a: String, b: String)
+    ensures (#[trigger] a@ == #[trigger] b@) ==> a == b
+{}
